@@ -7,6 +7,8 @@ identical (bitwise floats, array equality, exception type) to the pristine-fork
 reference for (sequence, preset phosphosites, operation, arguments) - a process
 that imported the package and made no other call - and the stored sequence and
 phosphosite list of every live object must be unchanged by every call."""
+import os
+
 from .. import gen
 from .. import refmodel as M
 from ..zygote import Zygote
@@ -204,6 +206,8 @@ def teardown(S):
 
 
 def cases(tier, seed):
+    if tier == "thorough":
+        yield {"k": "repo_suite_under_contracts"}
     rng = gen.sub_rng(seed, ID)
     seqs = []
     for i in range(NSEQ[tier]):
@@ -228,7 +232,47 @@ def snapshot(objs):
     return [(o.SeqObj.seq, list(o.SeqObj.phosphosites)) for o in objs]
 
 
+def judge_repo_suite(rep):
+    """Auxiliary workload: the repository's own tests with the contracts on."""
+    import json
+    import re
+    import subprocess
+    import sys
+    import tempfile
+    from .. import sut
+    tmp = tempfile.mkdtemp(prefix="lcverif_suite_")
+    counts = os.path.join(tmp, "counts.json")
+    env = dict(os.environ, LCVERIF_CONTRACT_COUNTS=counts, PYTHONDONTWRITEBYTECODE="1", MPLBACKEND="Agg")
+    env.pop("LOCALCIDER_VERIF", None)
+    try:
+        p = subprocess.run([sys.executable, "-W", "ignore", "-m", "pytest", "-q", "-rf", "-p", "no:cacheprovider", "-p",
+                            "lcverif.pytest_contracts", "--timeout=900", os.path.join(sut.REPO, "localcider", "tests")],
+                           cwd=tmp, env=env, capture_output=True, text=True, timeout=3000)
+    except subprocess.TimeoutExpired:
+        rep.inconclusive("repository test-suite under contracts timed out")
+        return
+    out = p.stdout + p.stderr
+    rep.cnt("repo_suite_runs")
+    m = re.search(r"(\d+) passed", out)
+    rep.cnt("repo_suite_tests_passed", int(m.group(1)) if m else 0)
+    try:
+        ev = sum(json.load(open(counts)).values())
+    except Exception:
+        ev = 0
+    rep.cnt("repo_suite_contract_evaluations", ev)
+    if ev == 0:
+        rep.inconclusive("the contracts were never evaluated while the repository's test-suite ran")
+    if "ContractBroken" in out:
+        lines = [l for l in out.splitlines() if "ContractBroken" in l][:5]
+        rep.viol("contract_in_repo_tests", "a contract fired while the repository's own test-suite ran: %s" % " | ".join(lines))
+    import shutil
+    shutil.rmtree(tmp, ignore_errors=True)
+
+
 def judge(case, rep, S):
+    if case.get("k") == "repo_suite_under_contracts":
+        judge_repo_suite(rep)
+        return
     SP = S["SP"]
     rng = gen.sub_rng(case["o"], ID)
     seqs = case["seqs"]
